@@ -970,7 +970,7 @@ def build_jobs(tier, seed):
                 jobs.append({"kind": "template", "arch": arch, "tiny": False, "names": names[i:i + 2], "reps": 1,
                              "seed": seed, "tier": tier})
     # systematic sweep over the crash point of the cache write
-    sweep_archs = [("n1", True), ("zen1", True), ("tx2", False)] if tier == "quick" else \
+    sweep_archs = [("n1", True), ("zen1", True)] if tier == "quick" else \
         [(a, t) for a in archs for t in (True, False)]
     for arch, tiny in sweep_archs:
         for chunking in ("4096", "header", "lastbyte"):
@@ -983,7 +983,7 @@ def build_jobs(tier, seed):
                 jobs.append({"kind": "sweep", "arch": arch, "tiny": tiny, "kernel": 0, "ks": ks[i:i + 8], "seed": seed,
                              "chunking": chunking})
             if chunking == "4096":
-                for off in ([2, 6] if tier == "quick" else [1, 2, 4, 6, 10]):
+                for off in ([3] if tier == "quick" else [1, 2, 4, 6, 10]):
                     for i in range(0, len(ks), 8):
                         jobs.append({"kind": "sweep", "arch": arch, "tiny": tiny, "kernel": 0, "ks": ks[i:i + 8], "seed": seed,
                                      "racing": True, "offset": off, "chunking": chunking})
@@ -1048,8 +1048,8 @@ def digests_for(items):
 
 
 def build_det_jobs(tier, seed, root):
-    n = 16 if tier == "quick" else 200
-    per = 2 if tier == "quick" else 10
+    n = 12 if tier == "quick" else 200
+    per = 1 if tier == "quick" else 10
     return [{"first": f, "n": min(per, n - f), "seed": seed, "tier": tier} for f in range(0, n, per)]
 
 
